@@ -137,7 +137,7 @@ func (c *Ctx) ruleR03c(rule string) {
 			continue
 		}
 		fn := c.name(m.Fn)
-		idx := ssax.Strip(m.Get.Call.Args[1])
+		idx := ssax.Strip(m.GetArgs[1])
 		u, ok := idx.(*ssa.UnOp)
 		fv, isFV := (ssa.Value)(nil), false
 		if ok && u.Op == token.MUL {
@@ -368,11 +368,11 @@ func (c *Ctx) ruleR03d(rule string) {
 			site := c.name(fn) + " " + sc.Name() + " @" + c.P.InstrPos(cl)
 			m := memoFns[fn]
 			ok2 := false
-			if m != nil && m.Get != nil && len(m.Get.Call.Args) == 4 {
+			if m != nil && m.Get != nil && len(m.GetArgs) == 4 {
 				P := ownParam(fn, "parsley", "Pos")
 				L := ownParam(fn, "data", "IntMap")
 				for _, cd := range ssax.DominatingConds(cl.Block()) {
-					if _, onTrue, isC := c.curtailTest(fn, cd.Val, L, P, m.Get.Call.Args[1]); isC && cd.Truth == onTrue {
+					if _, onTrue, isC := c.curtailTest(fn, cd.Val, L, P, m.GetArgs[1]); isC && cd.Truth == onTrue {
 						ok2 = true
 					}
 				}
